@@ -113,6 +113,19 @@ macro_rules! int_op {
     };
 }
 
+/// seven well-formed TLVs of 10000 bytes each (70000 bytes)
+fn big_section() -> &'static [u8] {
+    static S: OnceLock<Vec<u8>> = OnceLock::new();
+    S.get_or_init(|| {
+        let mut v = Vec::with_capacity(70000);
+        for i in 0..7u8 {
+            v.extend_from_slice(&[0xe0 + i, 0x27, 0x0d]);
+            v.extend((0..9997usize).map(|j| (j as u8).wrapping_mul(3).wrapping_add(i)));
+        }
+        v
+    })
+}
+
 pub fn ops() -> &'static [Op] {
     static O: OnceLock<Vec<Op>> = OnceLock::new();
     O.get_or_init(|| {
@@ -291,20 +304,47 @@ pub fn ops() -> &'static [Op] {
                 effect: || app(enc::unix_block(&ux_dst(), &ux_src())),
                 apply: |b| b.write_payload(v2::Addresses::Unix(v2::Unix::new(ux_dst(), ux_src()))),
             },
+            // 62..=63 batches longer than any chunk size a batching refactor would pick (8, 16): nine items of which the
+            // first eight encode to nothing, and seventeen small TLVs
+            Op {
+                name: "write_payloads([&[][..]; 8] ++ [&[0x5A][..]])",
+                effect: || app(vec![0x5a]),
+                apply: |b| {
+                    let mut items: Vec<&[u8]> = vec![&[][..]; 8];
+                    items.push(&[0x5a][..]);
+                    b.write_payloads(items)
+                },
+            },
+            Op {
+                name: "write_payloads((0..17).map(|i| (0xE0 + i, &[i][..])))",
+                effect: || app((0..17u8).flat_map(|i| enc::tlv(0xe0 + i, &[i]).unwrap()).collect()),
+                apply: |b| {
+                    let vals: Vec<[u8; 1]> = (0..17u8).map(|i| [i]).collect();
+                    b.write_payloads(vals.iter().enumerate().map(|(i, v)| (0xe0u8 + i as u8, &v[..])))
+                },
+            },
+            // 64 the byte-swapped partner of set_length(7)
+            Op { name: "set_length(0x0700u16)", effect: || Effect::SetLength(Some(0x0700)), apply: |b| Ok(b.set_length(0x0700u16)) },
+            // 65 a TLV section longer than a u16 can count (seven 10000-byte items): only an explicit length lets it be built
+            Op {
+                name: "write_payload(TypeLengthValues::from(&[7 x (type, 0x27 0x0D, 9997 bytes)][..]))  (70000 bytes)",
+                effect: || app(big_section().to_vec()),
+                apply: |b| b.write_payload(TypeLengthValues::from(big_section())),
+            },
         ]
     })
 }
 
-/// the main alphabet: ops 0..=40, 47..=59 and 61
+/// the main alphabet: ops 0..=40, 47..=59 and 61..=64
 pub fn main_ops() -> Vec<u8> {
-    (0..41u8).chain(47..60u8).chain(61..62u8).collect()
+    (0..41u8).chain(47..60u8).chain(61..65u8).collect()
 }
-/// slices of 65535 / 65519 / 16 / 1 bytes, set_length(7), set_length(None), u8, big TLVs
-pub const BOUNDARY_OPS: [u8; 10] = [41, 42, 43, 44, 4, 6, 7, 45, 46, 60];
+/// slices of 65535 / 65519 / 16 / 1 bytes, set_length(7), set_length(None), u8, big TLVs, 40000 bytes, a 70000-byte section
+pub const BOUNDARY_OPS: [u8; 11] = [41, 42, 43, 44, 4, 6, 7, 45, 46, 60, 65];
 /// the boundary alphabet plus one operation per write path (Type, u16, &u16, address block, TLV struct, (u8, bytes)
 /// pair, TLV section, write_tlv, write_payloads of integers and of pairs), so that every `WriteToHeader` impl is met
 /// in the states at and past the size limit
-pub const LIMIT_OPS: [u8; 20] = [41, 42, 43, 44, 4, 6, 7, 45, 46, 60, 28, 8, 29, 21, 23, 25, 27, 30, 33, 35];
+pub const LIMIT_OPS: [u8; 21] = [41, 42, 43, 44, 4, 6, 7, 45, 46, 60, 28, 8, 29, 21, 23, 25, 27, 30, 33, 35, 65];
 /// a small core alphabet for the deepest searches
 pub const CORE_OPS: [u8; 12] = [1, 3, 4, 6, 7, 8, 20, 23, 34, 36, 19, 47];
 
